@@ -151,6 +151,11 @@ def k4_no_other_channel(ck):
         if type_mentions(prog, s["ty"], MEMORY_TYPES):
             ck.fail("K4.static", name, "", "static `%s: %s` can carry search memory across games" % (name, s["ty"]))
         elif any(m in s["ty"] for m in INTERIOR_MUT) and not s["ty"].startswith("lazy_static::lazy::Lazy<") and s["ty"] != name:
+            from .common import write_once_static
+            once, why = write_once_static(prog, name, s)
+            if once:
+                ck.ok("K4.static", name, "", "write-once constant table: " + why)
+                continue
             ck.fail("K4.static", name, "", "mutable static `%s: %s` in the workspace: may carry state across games" % (name, s["ty"]))
     ck.ok("K4.static", "statics", "", "%d statics inspected" % n)
     for b in ws_bodies(prog):
